@@ -42,7 +42,9 @@ from common import cstr, cbool, clist, cpair
 
 THEOREMS = ['C18_run_fresh_state', 'C18_history_independent',
             'C18_shared_state_would_leak', 'C18_output_order_irrelevant',
-            'C18_deterministic_model',
+            'C18_deterministic_model', 'C18_full_run_fresh_state',
+            'C18_full_history_independent',
+            'C18_full_deterministic_model', 'C18_upstream_state_relevant',
             'C18_volume_text_order_irrelevant',
             'C18_remove_keys_order_irrelevant',
             'C18_sorted_depends_on_set_only',
@@ -508,7 +510,7 @@ def _sweep(res, tier, seed, rng, scratch):
 # ---------------------------------------------------------------------------
 
 TIE_HEADER = ('From Coq Require Import List ZArith Bool.\n'
-              'From T4V Require Import C18.Model C18.Exec.\n'
+              'From T4V Require Import C18.Model C18.Upstream C18.Exec.\n'
               'Import ListNotations.\nOpen Scope Z_scope.\n')
 STAGE_ERRORS = ('CellConversionError', 'KeyError')
 
@@ -582,26 +584,47 @@ def model_tie(res, tier, rng, jobs, fresh_res, hashseeds):
         if size > (400 if quick else 1500):
             res.count('tie:too-large')
             continue
+        # the upstream phases (TRCL / lattice / FILL), when captured
+        upstream = 'None'
+        if cap.up is not None and not cap.up_unsupported \
+                and expected != 'None':
+            usize = c18_tie.upstream_size(cap.up)
+            if usize <= (600 if quick else 2500):
+                upstream = f'(Some {c18_tie.coq_uinput(cap.up)})'
+                size += usize
+                res.count('tie:with-upstream')
+                for op in cap.up['ops']:
+                    res.count('upstream-op:' + op[0])
+            else:
+                res.count('tie:upstream-too-large')
+        else:
+            res.count('tie:no-upstream')
         n_cases += 1
         res.count('tie:' + ('ok' if expected != 'None' else 'stage-error'))
         if cap.cells:
             res.count('tie:with-cellrefs')
         if any(len(sides) > 1 for _, sides in cap.items):
             res.count('tie:with-aux-surfaces')
-        current.append((cpair(c18_tie.coq_input(cap), expected), job))
+        current.append((cpair(upstream, c18_tie.coq_input(cap), expected),
+                        job))
         size_budget += size
-        if len(current) >= 6 or size_budget > 900:
+        if len(current) >= 6 or size_budget > 1400:
             histories.append(current)
             current, size_budget = [], 0
     if current:
         histories.append(current)
     cases = [clist(c for c, _ in hist) for hist in histories]
     bad, errs = common.run_case_files(
-        'c18_hist', TIE_HEADER, 'list (input * option output)',
-        'check_history', cases, chunk=8)
+        'c18_hist', TIE_HEADER,
+        'list (option uinput * input * option output)',
+        'check_full_history', cases, chunk=8)
     res.obligation(f'tie:history ({n_cases} conversions in {len(cases)} '
-                   'histories: model run_history conversion = SURF/VOLU lines '
-                   'written by the implementation in a warm interpreter)',
+                   'histories: upstream model (pot_transform / cell_transform '
+                   '/ apply_trcl / pot_fill counter: new_cell_key, '
+                   'new_surf_key, cache, dic_surf_t4 order) = state observed '
+                   'at number_items, and model conversion fed with it = '
+                   'SURF/VOLU lines written by the implementation in a warm '
+                   'interpreter)',
                    not bad and not errs,
                    f'{len(bad)} disagreements {errs[:1]}')
     if histories:
@@ -612,7 +635,7 @@ def model_tie(res, tier, rng, jobs, fresh_res, hashseeds):
         # which conversion of the history disagrees?
         culprit = None
         for pos, (case, job) in enumerate(hist):
-            val, _ = common.coq_eval(TIE_HEADER, f'check_conv {case}')
+            val, _ = common.coq_eval(TIE_HEADER, f'check_full {case}')
             if val is None or 'false' in val:
                 culprit = (pos, job)
                 if os.environ.get('C18_DEBUG'):
